@@ -19,7 +19,7 @@ def run(rep, tier, seed):
                         "observation sequence per input: Parse, RunAfterParsed, GetDetailText, Run again, GetDetailText twice, GetAsmText, Ret.ToString/ToRepr/ToJSON, Matched/RestInput, RunExpr; VMs serve up to 4 inputs so that each meets state left by earlier ones",
                         "configurations drawn per VM: 2^4 family flags, DisableStmts/NDice/Bitwise, IgnoreDiv0, min/normal/max mode, DefaultDiceSideExpr in {'', 20, d6, x7, v_str, 1/0}, OpCountLimit in {300, 3000, 20000}, ParseExprLimit in {3000, 10^7}",
                         "byte-level inputs (exploration, the specification contributes only the contract): random bytes, token soups over the grammar's terminals and multi-byte/invalid UTF-8, truncations of corpus strings at any byte, pairs of corpus strings spliced, corpus strings with a token replaced",
-                        "a case that does not return within 30 s under these budgets is a hang; a worker process that dies is a fatal runtime error of the case it was running (the worker is restarted after it)",
+                        "a case that uses more than 120 s of processor time under these budgets (or does not return within 15 minutes) is a hang; a worker process that dies is a fatal runtime error of the case it was running (the worker is restarted after it)",
                         "spec/Host.tla: the API of one context as a state machine (Parse, RunAfterParsed, Run, RunExpr, observers in any order; classes of texts; the pending-error deviation of RunExpr modelled as it is); every call sequence of length 4 is written by TLC and replayed (quick: every 4th); only a call that does not return is a violation of C01, other differences from the model are printed as DRIFT",
                         "quick runs every 1- and 2-hole case (1-hole in all contexts) and every 8th 3-hole case; thorough runs the whole product in every context"]
     with Work("c01") as w:
@@ -74,7 +74,7 @@ def run(rep, tier, seed):
                     "what": "%s: input %r (%d inputs alike; VM had seen %d inputs) config %s: %s" % (
                         "/".join(why), e["src"][:200], e["count"], e.get("reused", 0), json.dumps(cfg),
                         ("%s panicked in %s: %s" % (e["panicVia"], e["panicFunc"], e["panicMsg"])) if e["panicVia"] else
-                        ("the process died: " + e["panicMsg"][:200]) if e["fatal"] else "no return within 30 s" if e["hang"] else "the process text differs between two requests"),
+                        ("the process died: " + e["panicMsg"][:200]) if e["fatal"] else "no return within 120 s of processor time" if e["hang"] else "the process text differs between two requests"),
                     "features": ["c01"] + why, "replay": {"event": e, "why": why}}
             if e.get("macroOffInHole") and e["panicVia"] and e["panicFunc"].endswith("evaluate") and "index out of range" in e["panicMsg"]:
                 viol["key"] = "macro-off-inside-template-block"      # KF-C01-1 (spec/Gate.tla: MacroInHole)
